@@ -566,6 +566,8 @@ def run_case(case, workdir=None, backend_factory=None, catch_ki=False, around_ru
                 r = json.load(fh)
             if r['kind'] == 'start' and (r['pid'] != os.getpid() or r['thread'] != threading.get_ident()):
                 elsewhere += 1
+            if r['kind'] == 'start':
+                obs.setdefault('start_times', {})[r['label']] = max(r['t'], obs.get('start_times', {}).get(r['label'], 0))
         obs['serial_elsewhere'] = elsewhere
     obs['events'] = rec.ev
     obs['batches'] = rec.batches
